@@ -131,6 +131,10 @@ pub fn check(case: &Case) -> Outcome {
         Ran::Panicked(p) => return o.fail(format!("C14:{}", p.class()), format!("{}; {} panicked: {}", ins.describe(), del.describe(), p.describe())),
         Ran::Refused(msg) => return refused(o, &del, msg),
     };
+    if ec.avoids(geom::SW_COMPETING) && (geom::blocked_anchor_next_to_another(&before) || geom::blocked_anchor_next_to_another(held.model())) {
+        o.excluded += 1;
+        return o.label("skipped:competing-dynamic-arrays");
+    }
     let mut a = snapshot::snapshot(&before, SnapOpts::default());
     let mut b = snapshot::snapshot(held.model(), SnapOpts::default());
     // values that depend on the evaluation order (reference cycles, readers of another array's
